@@ -5,7 +5,11 @@ EXTENDS Output, OutputReg
 VARIABLE x
 \* constructor keywords that the component sweep of the driver leaves at their default without saying why
 Unswept(c) == (c.params \ (c.supplied \cup c.exempt)) \ c.given
-ASSUME PrintT(<<"REB", ToJson({[name |-> c.name, lost |-> LostKeys(c), rebuilt |-> Rebuilt(c), unswept |-> Unswept(c), distinct |-> c.distinct] : c \in MCComponents})>>)
+\* keywords that have a falsy value of their own type (0, 0.0, False, []) for which the sweep neither ran the model with that
+\* value nor found that the model rejects it (the "falsy" input class of MC_OutputWr)
+Unzeroed(c) == c.zeroable \ (c.zeroed \cup c.nozero)
+ASSUME PrintT(<<"REB", ToJson({[name |-> c.name, lost |-> LostKeys(c), rebuilt |-> Rebuilt(c), unswept |-> Unswept(c), distinct |-> c.distinct,
+                               unzeroed |-> Unzeroed(c), zeroed |-> c.zeroed] : c \in MCComponents})>>)
 Init == x = 0
 Next == UNCHANGED x
 Spec == Init /\ [][Next]_x
@@ -13,6 +17,7 @@ Spec == Init /\ [][Next]_x
 RebuildSound == \A c \in MCComponents : Rebuilt(c) \subseteq c.written
 \* the component sweep of the driver is in the "distinct" input class of MC_OutputWr for every component: every
 \* constructor keyword that the loader does not fill from elsewhere (and that is not explicitly exempted) is given a
-\* non-default value, and the numeric values of one component are pairwise distinct
-SweepComplete == \A c \in MCComponents : Unswept(c) = {} /\ c.distinct
+\* non-default value, the numeric values of one component are pairwise distinct, and every keyword that has a falsy value of
+\* its type was handed that value ("falsy" class) unless the model rejects it
+SweepComplete == \A c \in MCComponents : Unswept(c) = {} /\ c.distinct /\ Unzeroed(c) = {}
 =============================================================================
